@@ -7,6 +7,7 @@ generated `MAX_NODE_ID`.
 -/
 import AioMySensors.Lemmas.Exact
 import AioMySensors.Model.Persist
+import AioMySensors.Lemmas.PersistReach
 
 namespace AioMySensors.C11
 open AioMySensors M
@@ -352,6 +353,96 @@ theorem never_handed_out_twice_life (st : St) (ops : List LifeOp) :
   rw [e] at h3
   rw [h3] at h2
   exact absurd h2 (by simp)
+
+/-! ### Across restarts of the controller: what the final save wrote is what the next gateway object restores
+
+However an `async with gateway:` statement ends — the body ends, an exception leaves it, the task is cancelled —
+`Gateway.__aexit__` runs `Persistence.stop`, which saves the registry a final time (C16 is about that it does).  When the
+controller is started again, a NEW gateway object (empty registry, nothing buffered, version unknown) loads that file on
+entering.  A *controller life* is traffic interleaved with such restarts; over it no registered id is ever forgotten, so
+an id handed out in one run is never handed out in a later one.  The registries involved are those `save` can write
+back (`RegOK`, C13: every registry reachable from a `RegOK` one — the empty one, a loaded file — by traffic is). -/
+
+theorem persisted_regOK (r : PDict Int Node) (h : RegOK r) : RegOK (Persist.persisted r) := by
+  refine ⟨by rw [keys_persisted]; exact h.nodup, ?_⟩
+  intro kn hkn
+  simp only [Persist.persisted] at hkn
+  obtain ⟨kn0, hkn0, rfl⟩ := List.mem_map.mp hkn
+  have := h.nodes kn0 hkn0
+  exact ⟨this.id_lo, this.id_hi, this.bat_lo, this.bat_hi, this.children_nodup, this.children⟩
+
+/-- The state of the gateway object of the next run: a new object (`{}`) that has loaded the file the final save of
+this one wrote.  (Were the load to fail the new object could not be entered; it then holds nothing.) -/
+def restartSt (st : St) : St :=
+  match Persist.loadFile [] (.value (Persist.save st.nodes)) with
+  | .ok res => { nodes := res.nodes }
+  | .error _ => {}
+
+/-- The load of the next run succeeds and restores the registry (up to the `reboot` flags, which are not saved). -/
+theorem restart_restores (st : St) (h : RegOK st.nodes) : (restartSt st).nodes = Persist.persisted st.nodes := by
+  have := load_save_aux st.nodes h
+  simp only [Persist.load] at this
+  simp [restartSt, Persist.loadFile, Persist.readFile, this]
+
+/-- **A restart forgets no registered id.** -/
+theorem restart_keeps_registered_ids (st : St) (h : RegOK st.nodes) (k : Int) (hk : st.nodes.has k = true) :
+    (restartSt st).nodes.has k = true := by
+  rw [restart_restores st h, PDict.has_iff_mem_keys, keys_persisted, ← PDict.has_iff_mem_keys]
+  exact hk
+
+/-- One event in the life of a controller with a persistence file: traffic handled by the current gateway object, or
+the end of its last session followed by a restart. -/
+inductive RunOp where
+  | gw (op : Op)
+  | restart
+
+def runStep (st : St) : RunOp → St
+  | .gw op => (stepOp st op).1
+  | .restart => restartSt st
+
+def runsAfter (st : St) (ops : List RunOp) : St := ops.foldl runStep st
+
+theorem keys_monotone_runs (ops : List RunOp) (st : St) (h : RegOK st.nodes) (k : Int) (hk : st.nodes.has k = true) :
+    RegOK (runsAfter st ops).nodes ∧ (runsAfter st ops).nodes.has k = true := by
+  induction ops generalizing st with
+  | nil => exact ⟨h, hk⟩
+  | cons op ops ih =>
+    cases op with
+    | gw o =>
+      refine ih _ (stepOp_regOK st o h) ?_
+      have := keys_monotone_history [o] st k hk
+      simpa [runStep, stateAfter, run] using this
+    | restart =>
+      refine ih _ ?_ (restart_keeps_registered_ids st h k hk)
+      show RegOK (restartSt st).nodes
+      rw [restart_restores st h]
+      exact persisted_regOK _ h
+
+/-- **Never twice, over all runs of the controller**: an id handed out by one gateway object (`nextId ≤ MAX_NODE_ID`, so it
+was handed out and registered) differs from the id handed out after any further traffic and any number of restarts on
+the persistence file. -/
+theorem never_handed_out_twice_restarts (st : St) (h : RegOK st.nodes) (hle : nextId st.nodes ≤ Gen.maxNodeId)
+    (ops : List RunOp) :
+    let id := nextId st.nodes
+    let st1 : St := { st with nodes := st.nodes.set id placeholderNode }
+    nextId (runsAfter st1 ops).nodes ≠ id := by
+  intro id st1 e
+  have hmax : Gen.maxNodeId ≤ Gen.nodeIdMax := by decide
+  have hreg : RegOK st1.nodes :=
+    regOK_set st.nodes _ _ h (nodeOK_fresh _ _ _ (nextId_ge_min _ h) (by omega))
+  have h1 : st1.nodes.has id = true := PDict.has_set_self _ _ _
+  have h2 := (keys_monotone_runs ops st1 hreg id h1).2
+  have h3 := nextId_fresh (runsAfter st1 ops).nodes
+  rw [e] at h3
+  rw [h3] at h2
+  exact absurd h2 (by simp)
+
+/-- Non-vacuity: after a restart the next id is above the ids of the previous run. -/
+example : nextId (runsAfter { nodes := [(1, placeholderNode), (7, placeholderNode)] } [.restart]).nodes = 8 := by
+  have h : RegOK ([(1, placeholderNode), (7, placeholderNode)] : PDict Int Node) := by decide
+  simp only [runsAfter, List.foldl, runStep]
+  rw [restart_restores _ h]
+  decide
 
 /-! Non-vacuity -/
 example : nextId ([(1, placeholderNode), (7, placeholderNode), (3, placeholderNode)] : PDict Int Node) = 8 := by decide
